@@ -1,8 +1,8 @@
 (** Pinned statements of the C08 property theorems: compiled on every check, so a theorem cannot be
     weakened silently. *)
 From V Require Import Base.Util Gql.Ast Peg.Peg Gen.C07_grammar_gen C07.Builder C07.Model.
-From V Require Import C08.Model C08.Spec C08.SiteType Gen.C08_sites_gen C08.Sites C08.ProofsRender C08.ProofsEscape C08.Proofs C08.Properties.
-From V Require C03.Properties C11.Properties C12.Properties C13.Properties.
+From V Require Import C08.Model C08.Spec C08.SiteType Gen.C08_sites_gen C08.Sites C08.ProofsRender C08.ProofsEscape C08.Shape C08.ProofsShape C08.ProofsMerge C08.Proofs C08.Properties.
+From V Require C03.Properties C07.Fuel C11.Properties C12.Properties C13.Properties.
 Local Open Scope N_scope.
 
 Check (C08_render_total : forall files pos msg addl,
@@ -19,6 +19,17 @@ Check (C08_escape_panic_iff : forall ds k,
 Check (C08_escape_total_refuted :
   parse_class false w_lone_surrogate = 10 + P_char /\ parse_class false w_above_max = 10 + P_char /\
   parse_class false w_overflow = 10 + P_radix /\ parse_class true w_description = 10 + P_char).
+Check (C08_builder_shapes_ok : forall inp file k,
+  parse_operation_document file inp = PPanic k -> k = P_char \/ k = P_radix).
+Check (C08_builder_shapes_ok_ts : forall inp file k,
+  parse_type_system_document file inp = PPanic k -> k = P_char \/ k = P_radix).
+Check (C08_parse_total : forall file inp,
+  ((exists d, parse_operation_document file inp = POk d) \/ parse_operation_document file inp = PErr \/
+   parse_operation_document file inp = PPanic P_char \/ parse_operation_document file inp = PPanic P_radix) /\
+  ((exists d, parse_type_system_document file inp = POk d) \/ parse_type_system_document file inp = PErr \/
+   parse_type_system_document file inp = PPanic P_char \/ parse_type_system_document file inp = PPanic P_radix)).
+Check (C08_parse_forest_generated : forall (R : Type) (g : grammar R) inp fuel start ps,
+  parse_with g fuel start inp = Ok ps -> exists t, gent g inp true ANon (Call start) t ps).
 Check (C08_all_sites_accounted : forallb accounted scanned_sites = true).
 Check (C08_no_stale_entries : forallb still_scanned table = true).
 Check (C08_resolve_total : forall doc,
@@ -44,13 +55,21 @@ Check (C08_emit_total_refuted :
     /\ C12.Model.document_runtime_texts (mkOpDoc pos0 defs) = C12.Model.Panic C12.Model.msg_fragment_not_found).
 Check (C08_check_then_generate_refuted :
   exists S D, C03.Model.check_operation_document S D = [] /\ C03.Spec.rule_ok S D C03.Spec.R_fields_exist = false).
+Check (C08_merge_unchecked_refuted :
+  check_then_tree w_merge_schema w_merge_fields = Some ([], Some (C01.Model.Err C01.Model.EMergeFields)) /\
+  check_then_tree w_merge_schema w_merge_trees = Some ([], Some (C01.Model.Err C01.Model.EMergeTrees))).
 
+Print Assumptions C08_merge_unchecked_refuted.
 Print Assumptions C08_render_total.
 Print Assumptions C08_skip_chars_total.
 Print Assumptions C08_render_index_refuted.
 Print Assumptions C08_escape_total_partial.
 Print Assumptions C08_escape_panic_iff.
 Print Assumptions C08_escape_total_refuted.
+Print Assumptions C08_builder_shapes_ok.
+Print Assumptions C08_builder_shapes_ok_ts.
+Print Assumptions C08_parse_total.
+Print Assumptions C08_parse_forest_generated.
 Print Assumptions C08_all_sites_accounted.
 Print Assumptions C08_no_stale_entries.
 Print Assumptions C08_resolve_total.
